@@ -186,6 +186,8 @@ func WithCommittee(index common.CommitteeIndex) AttSearchOption {
 }
 
 func (ap *AttestationPool) Search(opts ...AttSearchOption) (out []*phase0.Attestation) {
+	ap.RLock()
+	defer ap.RUnlock()
 	var conf attSearch
 	for _, opt := range opts {
 		opt(&conf)
@@ -212,6 +214,8 @@ func (ap *AttestationPool) Search(opts ...AttSearchOption) (out []*phase0.Attest
 
 // Prune pool based on current epoch, attestations which cannot be included anymore will get pruned.
 func (ap *AttestationPool) Prune(epoch common.Epoch) {
+	ap.Lock()
+	defer ap.Unlock()
 	min := epoch.Previous()
 	for k, v := range ap.datas {
 		if v.Data.Target.Epoch < min {
